@@ -208,6 +208,10 @@ class PathEnum:
             for p in self.block(s.body):
                 out.append(Path([Step("with", s)] + p.steps, p.exit, p.exit_node))
             return out
+        # a conditional expression as the whole value of a statement is a branch: `x = a if c else b` == if c: x = a else: x = b
+        lifted = self._lift_ifexp(s)
+        if lifted is not None:
+            return lifted
         if isinstance(s, ast.Return):
             return [Path([], "return", s)]
         if isinstance(s, ast.Raise):
@@ -223,6 +227,23 @@ class PathEnum:
         if isinstance(s, ast.Pass):
             return [Path([], "fall")]
         return [Path([Step("stmt", s)], "fall")]
+
+    def _lift_ifexp(self, s: ast.stmt):
+        import copy as _copy
+
+        if isinstance(s, (ast.Assign, ast.AugAssign, ast.AnnAssign, ast.Return)) and isinstance(getattr(s, "value", None), ast.IfExp):
+            ie = s.value
+            out = []
+            for pol, val in ((True, ie.body), (False, ie.orelse)):
+                s2 = _copy.copy(s)
+                s2.value = val
+                head = Step("cond", ie.test, pol)
+                for p in self.stmt(s2):
+                    if self.prune and not self._compatible([head], p.steps):
+                        continue
+                    out.append(Path([head] + p.steps, p.exit, p.exit_node))
+            return out
+        return None
 
     def _if(self, s: ast.If) -> list[Path]:
         out = []
